@@ -1170,18 +1170,18 @@ func loopBlocks(head *ssa.BasicBlock) map[*ssa.BasicBlock]bool {
 }
 
 type modSet struct {
-	allocs   map[*ssa.Alloc]bool
-	freevars map[*ssa.FreeVar]bool
-	fields   map[string]bool // "T.f"
-	elems    map[string]types.Type
-	maps     map[string]*types.Map
-	ranges   map[*ssa.Range]bool
-	callees  map[string]bool
-	dyn      bool
-	all      bool
-	chans    bool
+	allocs    map[*ssa.Alloc]bool
+	freevars  map[*ssa.FreeVar]bool
+	fields    map[string]bool // "T.f"
+	elems     map[string]types.Type
+	maps      map[string]*types.Map
+	ranges    map[*ssa.Range]bool
+	callees   map[string]bool
+	dyn       bool
+	all       bool
+	chans     bool
 	closedCls map[string]bool
-	full     map[string]bool
+	full      map[string]bool
 }
 
 func newModSet() *modSet {
@@ -1588,6 +1588,43 @@ func (e *Engine) loopInvariants(fr *Frame, head *ssa.BasicBlock) []Clause {
 // autoRangeInv recognises the `rangeindex` loop shape and returns the implicit invariant -1 <= idx <= len-1.
 func (e *Engine) autoRangeInv(st *State, fr *Frame, head *ssa.BasicBlock) string {
 	body := loopBlocks(head)
+	if head.Comment == "rangeint.body" {
+		// for i := range n: the hidden counter satisfies 0 <= iter < n at the head (checked on entry and on every back edge)
+		for _, p := range head.Preds {
+			if !body[p] || len(p.Instrs) == 0 {
+				continue
+			}
+			iff, ok := p.Instrs[len(p.Instrs)-1].(*ssa.If)
+			if !ok {
+				continue
+			}
+			bo, ok := iff.Cond.(*ssa.BinOp)
+			if !ok || bo.Op != token.LSS {
+				continue
+			}
+			if yi, ok := bo.Y.(ssa.Instruction); ok && body[yi.Block()] {
+				continue
+			}
+			for _, in := range head.Instrs {
+				ld, ok := in.(*ssa.UnOp)
+				if !ok || ld.Op != token.MUL {
+					continue
+				}
+				al, ok := ld.X.(*ssa.Alloc)
+				if !ok || al.Comment != "rangeint.iter" {
+					continue
+				}
+				c, ok := fr.allocs[al]
+				if !ok {
+					continue
+				}
+				idx := e.load(st, &Loc{Kind: LCell, Cell: c, Root: c.T, T: c.T}).term()
+				y := e.get(st, fr, bo.Y).term()
+				return mkAnd(mkCmp(">=", idx, "0"), mkCmp("<", idx, y))
+			}
+		}
+		return ""
+	}
 	for _, ins := range head.Instrs {
 		bo, ok := ins.(*ssa.BinOp)
 		if !ok || bo.Op != token.LSS {
@@ -1657,6 +1694,7 @@ func (e *Engine) loopArrive(st *State, fr *Frame, from, head *ssa.BasicBlock) {
 			}
 		}
 	}
+	e.dropRangeIntVars(st, fr, head)
 	evalInvs(st, true)
 	key := fmt.Sprintf("%p", head)
 	if back {
@@ -1673,6 +1711,7 @@ func (e *Engine) loopArrive(st *State, fr *Frame, from, head *ssa.BasicBlock) {
 	st.loopLocks = nl
 	ms := e.modsOf(head)
 	e.applyMods(st, fr, ms, true)
+	e.dropRangeIntVars(st, fr, head)
 	evalInvs(st, false)
 	// phis at the loop head are loop-carried: havoc
 	idx := 0
@@ -1877,4 +1916,30 @@ func (e *Engine) repoImplsOf(t types.Type, method string) []*ssa.Function {
 		}
 	}
 	return out
+}
+
+// dropRangeIntVars: see loopArrive.
+func (e *Engine) dropRangeIntVars(st *State, fr *Frame, head *ssa.BasicBlock) {
+	if head.Comment != "rangeint.body" {
+		return
+	}
+	{
+		// the per-iteration variable of `for i := range n` is declared afresh from the counter: at the head it denotes
+		// the counter's current value, not last iteration's copy
+		for _, in := range head.Instrs {
+			if a, ok := in.(*ssa.Alloc); ok && a.Referrers() != nil {
+				for _, r := range *a.Referrers() {
+					if sv, ok := r.(*ssa.Store); ok && sv.Addr == a {
+						if ld, ok := sv.Val.(*ssa.UnOp); ok && ld.Op == token.MUL {
+							if it, ok := ld.X.(*ssa.Alloc); ok && it.Comment == "rangeint.iter" {
+								if c, ok := fr.allocs[a]; ok {
+									delete(st.cells, c)
+								}
+							}
+						}
+					}
+				}
+			}
+		}
+	}
 }
